@@ -254,6 +254,36 @@ def load_known(prop):
             if k.get("property") == prop and k.get("status") == "open"]
 
 
+def load_fixed(prop):
+    """repaired defects of this property: their witnesses are run on every
+    check, so a defect that returns is reported again (a `fixed` entry
+    suppresses nothing)"""
+    path = os.path.join(VERIF, "known_findings.json")
+    try:
+        with open(path, encoding="utf-8") as f:
+            data = json.load(f)
+    except FileNotFoundError:
+        return []
+    return [k for k in data.get("findings", [])
+            if k.get("property") == prop and k.get("status") == "fixed" and k.get("witness")]
+
+
+def run_witness(snippet, timeout=120):
+    """execute a witness snippet on the real code in a fresh interpreter;
+    returns None when it passes, else a description of the failure"""
+    env = dict(os.environ, PYTHONPATH=os.path.join(REPO, "src"),
+               DECIMALFP_FORCE_PYTHON_IMPL="1")
+    try:
+        p = subprocess.run(["/venv/bin/python", "-c", snippet], env=env, capture_output=True,
+                           text=True, timeout=timeout, cwd="/")
+    except subprocess.TimeoutExpired:
+        return None          # infrastructure, never a verdict
+    if p.returncode == 0:
+        return None
+    return (p.stderr or p.stdout).strip().splitlines()[-1][:300] if (p.stderr or p.stdout).strip() \
+        else f"exit {p.returncode}"
+
+
 # --------------------------------------------------------------------------
 # reporting
 # --------------------------------------------------------------------------
